@@ -270,7 +270,7 @@ pub fn c04_fields_mmap() {
     vassert!(MemoryAreaType::from(a[1].typ()) == MemoryAreaType::from(MemoryAreaTypeId::from(le32(&b.0, T + 56))), "area type classification");
 }
 
-// @harness props=C04 tier=quick panic=forbid
+// @harness props=C04,C08 tier=quick panic=forbid
 // @encodes BootInformation::framebuffer_tag FramebufferTag::{address,pitch,width,height,bpp,buffer_type} framebuffer::Reader
 // @bound framebuffer tag of the three known types with conformant colour info (indexed: 2 colours), all field bytes symbolic
 #[cfg_attr(kani, kani::proof)]
@@ -322,7 +322,7 @@ pub fn c04_fields_framebuffer() {
 
 /// [hdr][A][B][C][end] with three 8/16-byte tags whose types are drawn from a
 /// symbolic assignment: which tag does the getter return?
-// @harness props=C04 tier=quick panic=forbid
+// @harness props=C04,C08 tier=quick panic=forbid
 // @encodes BootInformation::get_tag (Iterator::find over TagIter) via efi_sdt64_tag / efi_ih64_tag / basic_memory_info_tag; efi_memory_map_tag withholding
 // @bound three 16-byte tags at offsets 8, 24, 40 with symbolic types out of {4, 12, 20, 0x99}: all multiplicities and orders
 #[cfg_attr(kani, kani::proof)]
